@@ -591,6 +591,66 @@ impl HttpContext {
             }
         );
 
+        // RFC 9112 §6.1 / §6.3: framing the next hop could read differently
+        // from us is refused, never forwarded as is. Transfer-Encoding must be
+        // a list of plain tokens ending in the one and only "chunked" (and is
+        // faulty on HTTP/1.0), Content-Length must be 1*DIGIT, a field name or
+        // a request target cannot be empty.
+        if from_h1 {
+            let http10 = matches!(
+                request.detached.status_line,
+                kawa::StatusLine::Request {
+                    version: kawa::Version::V10,
+                    ..
+                }
+            );
+            let mut faulty = matches!(
+                &request.detached.status_line,
+                kawa::StatusLine::Request { uri, .. } if uri.data_opt(buf).is_none_or(|u| u.is_empty())
+            );
+            let mut codings = 0usize;
+            let mut chunked_seen = 0usize;
+            let mut last_is_chunked = false;
+            for block in &request.blocks {
+                let kawa::Block::Header(header) = block else {
+                    continue;
+                };
+                if header.is_elided() {
+                    continue;
+                }
+                let key = header.key.data(buf);
+                if key.is_empty() {
+                    faulty = true;
+                } else if compare_no_case(key, b"content-length") {
+                    let val = header.val.data(buf);
+                    faulty |= val.is_empty() || !val.iter().all(u8::is_ascii_digit);
+                } else if compare_no_case(key, b"transfer-encoding") {
+                    faulty |= http10;
+                    for coding in header.val.data(buf).split(|b| *b == b',') {
+                        let coding = coding.trim_ascii();
+                        codings += 1;
+                        last_is_chunked = compare_no_case(coding, b"chunked");
+                        chunked_seen += last_is_chunked as usize;
+                        faulty |= coding.is_empty()
+                            || !coding
+                                .iter()
+                                .all(|b| b.is_ascii_alphanumeric() || b"!#$%&'*+-.^_`|~".contains(b));
+                    }
+                }
+            }
+            if codings > 0 && !(last_is_chunked && chunked_seen == 1) {
+                faulty = true;
+            }
+            if faulty {
+                request
+                    .parsing_phase
+                    .error(kawa::ParsingErrorKind::Processing {
+                        message: "ambiguous or malformed request framing",
+                    });
+                return;
+            }
+        }
+
         // RFC 9112 §6.3: a request with neither Content-Length nor
         // Transfer-Encoding has no body. Whatever follows its header section is
         // the next (pipelined) request and must be parsed as such, not relayed
